@@ -62,10 +62,29 @@ Proof.
     cbn [length] in *. lia.
 Qed.
 
+(* ------------------------------------------------------------ values *)
+Lemma vref_ok : forall x r, p_vref (pp_vref x ++ r) = Some (x, r).
+Proof. intros [id|m id] r; reflexivity. Qed.
+
+Lemma value_ok : forall v r, p_value (pp_value v ++ r) = Some (v, r).
+Proof. intros [z| |[|]|bs|s|n i f|[id|m id]] r; reflexivity. Qed.
+
+Lemma nval_ok : forall v r, p_nval (pp_nval v ++ r) = Some (v, r).
+Proof. intros [z|[id|m id]] r; reflexivity. Qed.
+
+Lemma pp_value_nonempty : forall v, pp_value v <> [].
+Proof. intros [z| |[|]|bs|s|n i f|[id|m id]]; discriminate. Qed.
+
+Lemma pp_nval_nonempty : forall v, pp_nval v <> [].
+Proof. intros [z|[id|m id]]; discriminate. Qed.
+
 (* ------------------------------------------------------------ constraints *)
 Lemma wf_c_nonempty : forall l c, wf_c l c = true -> pp_constr c <> [].
 Proof.
-  intros l c H. destruct c; cbn in *; try congruence.
+  intros l c H. destruct c; cbn [pp_constr] in *; try (cbn in *; congruence).
+  - apply pp_value_nonempty.
+  - destruct m; discriminate.
+  - destruct lo as [| |v]; cbn; try discriminate. pose proof (pp_value_nonempty v). destruct (pp_value v); [congruence|discriminate].
   - destruct cs as [|a [|b cs]]; cbn in H; rewrite ?andb_false_r in H; try discriminate.
     rewrite pp_sep_cons2. destruct (pp_constr a); cbn; congruence.
   - destruct cs as [|a [|b cs]]; cbn in H; rewrite ?andb_false_r in H; try discriminate.
@@ -76,7 +95,7 @@ Proof.
 Qed.
 
 (* follow conditions *)
-Definition is_dotdot (t : token) : bool := match t with TSym DotDot => true | _ => false end.
+Definition is_dotdot (t : token) : bool := match t with TSym DotDot | TSym Dot => true | _ => false end.
 Definition okE (r : list token) : Prop := hd_not is_dotdot r.
 Definition okI (r : list token) : Prop := hd_not is_dotdot r /\ hd_not is_caret r.
 Definition okU (r : list token) : Prop := hd_not is_dotdot r /\ hd_not is_caret r /\ hd_not is_bar r.
@@ -90,8 +109,26 @@ Definition Sok (n : nat) : Prop := forall c r,
   p_spec n (pp_constr c ++ Y RParen :: r) = Some (c, Y RParen :: r).
 
 Lemma p_upper_ok : forall hi r, hi <> EMin ->
-  p_upper (pp_endpoint hi :: r) = Some (hi, r).
-Proof. intros [| |z] r H; cbn; congruence. Qed.
+  p_upper (pp_endpoint hi ++ r) = Some (hi, r).
+Proof.
+  intros [| |v] r H; try reflexivity; [congruence|].
+  destruct v as [z| |[|]|bs|s|n i f|[id|m id]]; reflexivity.
+Qed.
+
+(* an element that starts with a value: single value, or the lower end of a range *)
+Lemma p_elem_value : forall pu ps v r,
+  p_elem pu ps (pp_value v ++ r) =
+  match r with
+  | TSym DotDot :: r' =>
+      match p_upper r' with Some (hi, r'') => Some (CRange (EVal v) hi, r'') | None => None end
+  | _ => Some (CVal v, r)
+  end.
+Proof.
+  intros pu ps v r.
+  destruct v as [z| |[|]|bs|s|n i f|[id|m id]]; cbn [pp_value pp_vref app p_elem p_ctype p_value p_vref];
+    destruct r as [|t r0]; try reflexivity;
+    destruct t as [s0|s0|z0|kk|p|bs0|s0|ng ip fp]; try reflexivity; destruct p; reflexivity.
+Qed.
 
 Lemma mk_constraint_notset : forall x, is_set x = false -> mk_constraint x = CSet [x].
 Proof. intros x H. unfold mk_constraint. rewrite H. reflexivity. Qed.
@@ -103,15 +140,23 @@ Proof.
   intros n HU HS c r Hwf Hlen Hr.
   destruct c; cbn [wf_c lvl_le] in Hwf; try discriminate.
   - (* CVal *)
-    cbn. destruct r as [|t r0]; [reflexivity|].
-    cbn in Hr. destruct t as [s|s|z0|k|p]; try reflexivity. destruct p; try reflexivity; discriminate.
+    cbn [pp_constr]. rewrite p_elem_value. destruct r as [|t r0]; [reflexivity|].
+    cbn in Hr. destruct t as [s|s|z0|k|p|bs|s|ng ip fp]; try reflexivity. destruct p; try reflexivity; discriminate.
+  - (* CType *)
+    destruct m as [m|]; [reflexivity|].
+    cbn [pp_constr app p_elem p_ctype].
+    destruct r as [|t0 r0]; [reflexivity|].
+    cbn in Hr. destruct t0 as [s|s|z0|k|p|bs|s|ng ip fp]; try reflexivity. destruct p; try reflexivity; discriminate.
   - (* CRange *)
+    apply andb_prop in Hwf. destruct Hwf as [Hwf _]. apply andb_prop in Hwf. destruct Hwf as [Hwf _].
     apply andb_prop in Hwf. destruct Hwf as [Hlo Hhi].
     assert (Hhi' : hi <> EMin) by (destruct hi; congruence).
-    destruct lo as [| |z]; try discriminate; cbn [pp_constr pp_endpoint app p_elem];
-      rewrite (p_upper_ok hi r Hhi'); reflexivity.
+    destruct lo as [| |v]; try discriminate; cbn [pp_constr pp_endpoint app].
+    + cbn [p_elem]. rewrite (p_upper_ok hi r Hhi'). reflexivity.
+    + rewrite <- app_assoc. rewrite p_elem_value. cbn [app].
+      rewrite (p_upper_ok hi r Hhi'). reflexivity.
   - (* CSize *)
-    destruct c as [| | | | | | |cs]; try discriminate.
+    destruct c as [| | | | | | | |cs]; try discriminate.
     destruct cs as [|x [|? ?]]; try discriminate.
     apply andb_prop in Hwf. destruct Hwf as [Hx Hns]. apply negb_true_iff in Hns.
     cbn [pp_constr flat_map app] in *. rewrite app_nil_r in *.
@@ -159,8 +204,12 @@ Proof.
         apply (wf_c_nonempty LElem). auto. }
       pose proof (pp_sep_len_count constr (Y Caret) pp_constr xs HF). lia. }
   destruct c; cbn [wf_c lvl_le] in Hwf; try discriminate.
-  - rewrite <- (pp_sep_one constr (Y Caret) pp_constr (CVal z)).
+  - rewrite <- (pp_sep_one constr (Y Caret) pp_constr (CVal v)).
     rewrite Hgen; auto; try congruence; rewrite ?pp_sep_one; auto.
+    cbn [forallb wf_c]. rewrite Hwf. reflexivity.
+  - rewrite <- (pp_sep_one constr (Y Caret) pp_constr (CType m t)).
+    rewrite Hgen; auto; try congruence; rewrite ?pp_sep_one; auto.
+    cbn [forallb wf_c]. rewrite Hwf. reflexivity.
   - rewrite <- (pp_sep_one constr (Y Caret) pp_constr (CRange lo hi)).
     rewrite Hgen; auto; try congruence; rewrite ?pp_sep_one; auto.
     cbn [forallb wf_c]. rewrite Hwf. reflexivity.
@@ -302,7 +351,7 @@ Proof.
   destruct cs as [|y cs'].
   - cbn [flat_map app].
     destruct r as [|t r0]; [reflexivity|].
-    destruct t as [s|s|z0|kk|p]; try reflexivity. destruct p; try reflexivity. contradiction.
+    destruct t as [s|s|z0|kk|p|bs|s|ng ip fp]; try reflexivity. destruct p; try reflexivity. contradiction.
   - remember (flat_map pp_parens (y :: cs') ++ r) as tl eqn:Etl.
     assert (Hrec : p_many n k' tl = Some (y :: cs', r)).
     { subst tl. apply IH; auto; try congruence. cbn [length] in *. lia. }
@@ -326,7 +375,7 @@ Lemma copt_ok : forall c n r,
   p_copt n (pp_copt c ++ r) = Some (c, r).
 Proof.
   intros [c|] n r Hwf Hlen Hr.
-  - cbn [wf_copt] in Hwf. destruct c as [| | | | | | |cs]; try discriminate.
+  - cbn [wf_copt] in Hwf. destruct c as [| | | | | | | |cs]; try discriminate.
     cbn [wf_top] in Hwf. destruct cs as [|x cs]; [discriminate|].
     cbn [pp_copt] in *. rewrite pp_constr_set in *.
     assert (Hm : p_many n n (flat_map pp_parens (x :: cs) ++ r) = Some (x :: cs, r)).
@@ -336,7 +385,7 @@ Proof.
     cbn [flat_map]. unfold pp_parens at 1. reflexivity.
   - cbn [pp_copt app]. unfold p_copt.
     destruct r as [|t r0]; [reflexivity|].
-    destruct t as [s|s|z0|kk|p]; try reflexivity. destruct p; try reflexivity. contradiction.
+    destruct t as [s|s|z0|kk|p|bs|s|ng ip fp]; try reflexivity. destruct p; try reflexivity. contradiction.
 Qed.
 
 (* between SEQUENCE/SET and OF *)
@@ -346,7 +395,7 @@ Lemma ofconstr_ok : forall c n r,
 Proof.
   intros [c|] n r Hwf Hlen.
   - cbn [wf_copt] in Hwf. cbn [pp_copt] in *.
-    destruct c as [| | |s| | | |cs]; try discriminate.
+    destruct c as [| | | |s| | | |cs]; try discriminate.
     + (* bare SIZE *)
       unfold wf_ofc in Hwf.
       assert (He := elem_ok n (Uok_all n) (Sok_all n) (CSize s) (K KOF :: r) Hwf ltac:(lia) ltac:(reflexivity)).
@@ -370,7 +419,7 @@ Definition not_tagish (r : list token) : Prop :=
 Lemma p_mode_default : forall r, not_tagish r -> p_mode r = (TMDefault, r).
 Proof.
   intros r H. destruct r as [|t r0]; [reflexivity|].
-  destruct t as [s|s|z|k|p]; try reflexivity. destruct k; try reflexivity; contradiction.
+  destruct t as [s|s|z|k|p|bs|s|ng ip fp]; try reflexivity. destruct k; try reflexivity; contradiction.
 Qed.
 
 Lemma tag_ok : forall tg r, not_tagish r -> p_tag (pp_tagopt tg ++ r) = Some (tg, r).
@@ -389,7 +438,7 @@ Proof.
     destruct cl; cbn [app p_tag]; try (rewrite <- app_assoc; cbn [app]); try apply Hn.
   - cbn [pp_tagopt app]. unfold p_tag.
     destruct r as [|t r0]; [reflexivity|].
-    destruct t as [s|s|z|k|p]; try reflexivity. destruct p; try reflexivity; contradiction.
+    destruct t as [s|s|z|k|p|bs|s|ng ip fp]; try reflexivity. destruct p; try reflexivity; contradiction.
 Qed.
 
 (* ----------------------------------------------------- primitive types *)
@@ -400,7 +449,10 @@ Definition not_lbrace (r : list token) : Prop :=
   match r with TSym LBrace :: _ => False | _ => True end.
 
 Lemma nn_ok : forall x r, p_nn (pp_nn x ++ r) = Some (x, r).
-Proof. intros [id v] r. reflexivity. Qed.
+Proof.
+  intros [id v] r. unfold pp_nn. cbn [fst snd app p_nn].
+  rewrite <- app_assoc. rewrite nval_ok. reflexivity.
+Qed.
 
 Lemma nnlist_ok : forall nn k r, length (pp_nnlist nn) <= k -> not_lbrace r ->
   p_nnlist k (pp_nnlist nn ++ r) = Some (nn, r).
@@ -408,7 +460,7 @@ Proof.
   intros nn k r Hk Hr. destruct nn as [|x nn].
   - cbn [pp_nnlist app]. unfold p_nnlist.
     destruct r as [|t r0]; [reflexivity|].
-    destruct t as [s|s|z|kk|p]; try reflexivity. destruct p; try reflexivity; contradiction.
+    destruct t as [s|s|z|kk|p|bs|s|ng ip fp]; try reflexivity. destruct p; try reflexivity; contradiction.
   - unfold pp_nnlist in *. cbn [app p_nnlist]. rewrite <- app_assoc.
     assert (Hs : p_sep1 p_nn is_comma k (pp_sep (Y Comma) pp_nn (x :: nn) ++ [Y RBrace] ++ r)
                  = Some (x :: nn, [Y RBrace] ++ r)).
@@ -428,9 +480,10 @@ Qed.
 Lemma eitem_ok : forall e r, good_cr r -> p_eitem (pp_eitem e ++ r) = Some (e, r).
 Proof.
   intros [id [v|]|] r Hr; try reflexivity.
-  cbn [pp_eitem app p_eitem].
-  destruct r as [|t r0]; [contradiction|].
-  destruct t as [s|s|z|kk|p]; try contradiction. destruct p; try contradiction; reflexivity.
+  - cbn [pp_eitem app p_eitem]. rewrite <- app_assoc. rewrite nval_ok. reflexivity.
+  - cbn [pp_eitem app p_eitem].
+    destruct r as [|t r0]; [contradiction|].
+    destruct t as [s|s|z|kk|p|bs|s|ng ip fp]; try contradiction. destruct p; try contradiction; reflexivity.
 Qed.
 
 Lemma good_cr_comma : forall r, good_cr (Y Comma :: r).
@@ -478,28 +531,34 @@ Definition Tok (n : nat) : Prop := forall t r,
 
 Lemma marker_follow : forall mk r, good_cr r -> tfollow (pp_marker mk ++ r).
 Proof.
-  intros [| |[z|[|]]] r Hr; try exact I.
+  intros [| |v] r Hr; try exact I.
   cbn [pp_marker app]. destruct r as [|t r0]; [contradiction|].
-  destruct t as [s|s|z|kk|p]; try contradiction. destruct p; try contradiction; exact I.
+  destruct t as [s|s|z|kk|p|bs|s|ng ip fp]; try contradiction. destruct p; try contradiction; exact I.
 Qed.
 
 Lemma member_ok : forall n, Tok n -> forall m r,
   wf_member m = true -> length (pp_member m) <= n -> good_cr r ->
   p_member (p_texpr n) (pp_member m ++ r) = Some (m, r).
 Proof.
-  intros n HT [id t mk|] r Hwf Hlen Hr; [|reflexivity].
-  cbn [wf_member] in Hwf. apply andb_prop in Hwf. destruct Hwf as [_ Hwt].
-  cbn [pp_member] in *. rewrite <- app_comm_cons, <- app_assoc.
-  cbn [p_member].
-  rewrite (HT t _ Hwt ltac:(lens) (marker_follow mk r Hr)).
-  destruct mk as [| |[z|[|]]]; try reflexivity.
-  cbn [pp_marker app].
-  destruct r as [|t0 r0]; [contradiction|].
-  destruct t0 as [s|s|z|kk|p]; try contradiction. destruct p; try contradiction; reflexivity.
+  intros n HT [id t mk|[x|]] r Hwf Hlen Hr.
+  - cbn [wf_member] in Hwf. apply andb_prop in Hwf. destruct Hwf as [Hwf _].
+    apply andb_prop in Hwf. destruct Hwf as [_ Hwt].
+    cbn [pp_member] in *. rewrite <- app_comm_cons, <- app_assoc.
+    cbn [p_member].
+    rewrite (HT t _ Hwt ltac:(lens) (marker_follow mk r Hr)).
+    destruct mk as [| |v]; try reflexivity.
+    + cbn [pp_marker app].
+      destruct r as [|t0 r0]; [contradiction|].
+      destruct t0 as [s|s|z|kk|p|bs|s|ng ip fp]; try contradiction. destruct p; try contradiction; reflexivity.
+    + cbn [pp_marker app]. rewrite value_ok. reflexivity.
+  - cbn [pp_member app p_member]. rewrite nval_ok. reflexivity.
+  - cbn [pp_member app p_member].
+    destruct r as [|t0 r0]; [contradiction|].
+    destruct t0 as [s|s|z|kk|p|bs|s|ng ip fp]; try contradiction. destruct p; try contradiction; reflexivity.
 Qed.
 
 Lemma member_nonempty : forall m, pp_member m <> [].
-Proof. destruct m; discriminate. Qed.
+Proof. destruct m as [? ? ?|[?|]]; discriminate. Qed.
 
 Lemma members_ok : forall n, Tok n -> forall ms r,
   forallb wf_member ms = true ->
@@ -528,12 +587,12 @@ Proof.
   assert (Hhd : exists t0 rest, pp_sep (Y Comma) pp_member (m :: ms) ++ Y RBrace :: r = t0 :: rest
                                 /\ t0 <> Y RBrace).
   { destruct ms as [|m2 ms2].
-    - rewrite pp_sep_one. destruct m; cbn; do 2 eexists; split; try reflexivity; discriminate.
-    - rewrite pp_sep_cons2. destruct m; cbn; do 2 eexists; split; try reflexivity; discriminate. }
+    - rewrite pp_sep_one. destruct m as [? ? ?|[?|]]; cbn; do 2 eexists; split; try reflexivity; discriminate.
+    - rewrite pp_sep_cons2. destruct m as [? ? ?|[?|]]; cbn; do 2 eexists; split; try reflexivity; discriminate. }
   destruct Hhd as [t0 [rest [E Hne]]].
   rewrite E in *.
   rewrite Hs.
-  destruct t0 as [s|s|z|kk|p]; try reflexivity. destruct p; try reflexivity. congruence.
+  destruct t0 as [s|s|z|kk|p|bs|s|ng ip fp]; try reflexivity. destruct p; try reflexivity. congruence.
 Qed.
 
 Lemma struct_kw_ok : forall k, struct_kw (skind_kw k) = Some k.
@@ -556,11 +615,11 @@ Proof.
     { destruct c as [c|].
       - cbn [wf_copt] in Hc. destruct c; try discriminate. destruct cs; [discriminate|]. exact I.
       - cbn [pp_copt app]. destruct r as [|t0 r0]; [exact I|].
-        destruct t0 as [s|s|z|kk|q]; try exact I. destruct q; try exact I; contradiction. }
+        destruct t0 as [s|s|z|kk|q|bs|s|ng ip fp]; try exact I. destruct q; try exact I; contradiction. }
     rewrite (prim_ok p n _ Hp ltac:(lens) Hnb).
     assert (Hnl : not_lparen r).
     { destruct r as [|t0 r0]; [exact I|].
-      destruct t0 as [s|s|z|kk|q]; try exact I. destruct q; try exact I; contradiction. }
+      destruct t0 as [s|s|z|kk|q|bs|s|ng ip fp]; try exact I. destruct q; try exact I; contradiction. }
     rewrite (copt_ok c n r Hc ltac:(lens) Hnl). reflexivity.
   - (* TStruct *)
     cbn [wf_texpr] in Hwf.
@@ -582,7 +641,7 @@ Proof.
                   = p_of (p_texpr n) n tg k (pp_copt c ++ K KOF :: pp_texpr e ++ r)).
     { unfold p_struct_or_of.
       destruct c as [c|].
-      - cbn [wf_copt] in Hc. destruct c as [| | |s| | | |cs]; try discriminate.
+      - cbn [wf_copt] in Hc. destruct c as [| | | |s| | | |cs]; try discriminate.
         + cbn [pp_copt pp_constr app]. rewrite of_kw_ok. reflexivity.
         + cbn [wf_ofc] in Hc. destruct cs as [|x [|? ?]]; try discriminate.
           cbn [pp_copt pp_constr flat_map app]. rewrite of_kw_ok. reflexivity.
@@ -600,8 +659,6 @@ Proof.
 Qed.
 
 (* --------------------------------------------------------------- module *)
-Definition wf_assign (a : str * texpr) : bool := wf_typeref (fst a) && wf_texpr (snd a).
-
 Lemma assign_follow_end : forall r, tfollow (K KEND :: r).
 Proof. intro; exact I. Qed.
 
@@ -610,17 +667,24 @@ Lemma assigns_ok : forall l n k r,
   length (flat_map pp_assign l) < n -> length l < k ->
   p_assigns n k (flat_map pp_assign l ++ K KEND :: r) = Some (l, r).
 Proof.
-  induction l as [|[nm t] l IH]; intros n k r Hwf Hlen Hk.
+  induction l as [|a l IH]; intros n k r Hwf Hlen Hk.
   - destruct k as [|k']; [cbn in Hk; lia|]. reflexivity.
   - destruct k as [|k']; [cbn in Hk; lia|].
     cbn [forallb] in Hwf. apply andb_prop in Hwf. destruct Hwf as [Ha Hl].
-    unfold wf_assign in Ha. cbn [fst snd] in Ha. apply andb_prop in Ha. destruct Ha as [_ Ht].
-    cbn [flat_map] in *. unfold pp_assign at 1. unfold pp_assign at 1 in Hlen. cbn [fst snd] in *.
-    rewrite <- app_assoc. cbn [app p_assigns].
     assert (Hf : tfollow (flat_map pp_assign l ++ K KEND :: r)).
-    { destruct l as [|[nm2 t2] l2]; exact I. }
-    rewrite (Tok_all n t _ Ht ltac:(clear IH; lens) Hf).
-    rewrite (IH n k' r Hl ltac:(clear IH; lens) ltac:(clear IH; lens)). reflexivity.
+    { destruct l as [|[nm2 t2|nm2 t2 v2] l2]; exact I. }
+    destruct a as [nm t|nm t v]; cbn [wf_assign] in Ha.
+    + apply andb_prop in Ha. destruct Ha as [_ Ht].
+      cbn [flat_map] in *. unfold pp_assign at 1. unfold pp_assign at 1 in Hlen.
+      rewrite <- app_assoc. cbn [app p_assigns].
+      rewrite (Tok_all n t _ Ht ltac:(clear IH; lens) Hf).
+      rewrite (IH n k' r Hl ltac:(clear IH; lens) ltac:(clear IH; lens)). reflexivity.
+    + apply andb_prop in Ha. destruct Ha as [Ha _]. apply andb_prop in Ha. destruct Ha as [_ Ht].
+      cbn [flat_map] in *. unfold pp_assign at 1. unfold pp_assign at 1 in Hlen.
+      rewrite <- app_assoc. cbn [app p_assigns]. rewrite <- app_assoc. cbn [app].
+      rewrite (Tok_all n t (Y Assign :: (pp_value v ++ flat_map pp_assign l ++ K KEND :: r)) Ht ltac:(clear IH; lens) I).
+      rewrite value_ok.
+      rewrite (IH n k' r Hl ltac:(clear IH; lens) ltac:(clear IH; lens)). reflexivity.
 Qed.
 
 Lemma flags_ok : forall td ei r,
@@ -637,7 +701,7 @@ Proof.
   unfold pp_module in *. cbn [m_name m_tags m_extimpl m_assigns] in *.
   unfold p_module. rewrite flags_ok.
   assert (Hc : length l <= length (flat_map pp_assign l)).
-  { clear. induction l as [|[a t] l IH]; [cbn; lia|]. cbn [flat_map]. unfold pp_assign at 1. lens. }
+  { clear. induction l as [|[a t|a t v] l IH]; [cbn; lia| |]; cbn [flat_map]; unfold pp_assign at 1; lens. }
   rewrite (assigns_ok l n n [] Hl ltac:(lens) ltac:(lens)). reflexivity.
 Qed.
 
@@ -670,19 +734,34 @@ Qed.
 Local Open Scope str_scope.
 Definition ex_module : module_ast :=
   mkModule "Mod1" TDAutomatic false
-    [("Qa", TStruct None SSequence
-        [MComp "a" (TPrim None (PInteger [("one", 1%Z); ("two", 2%Z)])
-                      (Some (CSet [CCsv [CUni [CRange (EInt 1) (EInt 10); CRange (EInt 20) EMax]; CExt]])))
+    [ATyp "Qa" (TStruct None SSequence
+        [MComp "a" (TPrim None (PInteger [("one", NInt 1); ("two", NRef (VR1 "lim"))])
+                      (Some (CSet [CCsv [CUni [CRange (EVal (VInt 1)) (EVal (VRef (VR2 "Mod1" "lim")));
+                                               CRange (EVal (VInt 20)) EMax]; CExt]])))
                    MOptional;
-         MComp "b" (TPrim (Some (mkTag TCContext 1 TMImplicit)) PBoolean None) (MDefault (DBool true));
-         MExt;
-         MComp "c" (TOf None OSet (Some (CSet [CSize (CSet [CRange (EInt 1) EMax])]))
+         MComp "b" (TPrim (Some (mkTag TCContext 1 TMImplicit)) PBoolean None) (MDefault (VBool true));
+         MExt (Some (NInt (-5)));
+         MComp "c" (TOf None OSet (Some (CSet [CSize (CSet [CRange (EVal (VInt 1)) EMax])]))
                       (TPrim None (PRef "Qb") None)) MNone;
          MComp "h" (TPrim None (PInteger [])
-                      (Some (CSet [CInt [CSet [CUni [CRange (EInt 1) (EInt 5); CVal 7]];
-                                         CSet [CRange (EInt 2) (EInt 9)]]]))) MNone]);
-     ("Qb", TPrim (Some (mkTag TCApplication 2 TMExplicit))
-                  (PEnumerated [EItem "r" (Some 0%Z); EItem "g" None; EExt; EItem "b" (Some 5%Z)]) None)].
+                      (Some (CSet [CInt [CSet [CUni [CRange (EVal (VInt 1)) (EVal (VInt 5)); CVal (VInt 7)]];
+                                         CSet [CUni [CType None "Qc"; CType (Some "Mod1") "Qc"]]]]))) MNone;
+         MComp "o" (TPrim None POctetString
+                      (Some (CSet [CUni [CVal (VBits [true;true;true;true;true;true;true;true;
+                                                      false;false;false;false;false;false;false;false]);
+                                         CVal (VBits [true;false;true])]])))
+                   (MDefault (VBits [true;true;false;false;true;false;true;false]));
+         MComp "s" (TPrim None PIA5String (Some (CSet [CVal (VStr "say ""hi""")]))) (MDefault (VStr ""));
+         MComp "x" (TPrim None PReal (Some (CSet [CRange (EVal (VReal true "1" "500000")) (EVal (VReal false "0" "000001"))])))
+                   (MDefault (VReal false "3" "140000"));
+         MComp "n" (TPrim None PNull None) (MDefault VNull)]);
+     ATyp "Qb" (TPrim (Some (mkTag TCApplication 2 TMExplicit))
+                  (PEnumerated [EItem "r" (Some (NInt 0)); EItem "g" None; EExt; EItem "b" (Some (NRef (VR1 "lim")))]) None);
+     ATyp "Qc" (TPrim None (PInteger []) (Some (CSet [CRange (EVal (VInt 0)) (EVal (VInt 100))])));
+     AVal "lim" (TPrim None (PInteger []) None) (VInt 10);
+     AVal "sync" (TPrim None POctetString None)
+          (VBits [true;true;false;true; true;true;true;false; true;false;true;false; true;true;false;true]);
+     AVal "other" (TPrim None (PRef "Qc") None) (VRef (VR1 "lim"))].
 
 Example ex_module_wf : wf_module ex_module = true.
 Proof. vm_compute. reflexivity. Qed.
@@ -709,7 +788,7 @@ Definition deep_source : list token :=
    K KEND].
 
 Definition deep_module : module_ast :=
-  mkModule "M" TDNone false [("A", TPrim None (PInteger []) (Some (CSet [CSet [CVal 1]])))].
+  mkModule "M" TDNone false [ATyp "A" (TPrim None (PInteger []) (Some (CSet [CSet [CVal (VInt 1)]])))].
 
 Lemma deep_module_parsed : parse deep_source = Some deep_module.
 Proof. vm_compute. reflexivity. Qed.
